@@ -48,7 +48,11 @@ def tt_round(E, s):
     tn = E.tn
     N, R, M = s['N'], s['R'], s.get('M')
     d = len(N)
-    x, xc = so_tt_input(E, 'x', N, R, s['patterns'], M, sym_cores=s.get('sym_cores'))
+    if s.get('general'):
+        from .lib import tt_input
+        x, xc = tt_input(E, 'x', N, R, 'float64', M)       # arbitrary sign-free entries (rank-1 profiles: every QR/SVD input is a row or a column)
+    else:
+        x, xc = so_tt_input(E, 'x', N, R, s['patterns'], M, sym_cores=s.get('sym_cores'))
     if s.get('eps') == 'default':
         eps = None
     elif s.get('eps') == 'zero':
@@ -79,11 +83,11 @@ def tt_round(E, s):
     E.true('boundary_ranks', Ry[0] == 1 and Ry[-1] == 1 and len(Ry) == d + 1)
     E.true('cores_match_ranks', all(list(c.shape)[0] == Ry[k] and list(c.shape)[-1] == Ry[k + 1] for k, c in enumerate(y.cores)))
     modes = list(N) if M is None else [m * n for m, n in zip(M, N)]
-    dp = dense_pattern(N, R, s['patterns'], M)
+    dp = dense_pattern(N, R, s['patterns'], M) if not s.get('general') else None
     for k in range(1, d):
         E.true('rank_not_raised_%d' % k, Ry[k] <= R[k])
         if eps is None or eps != 0.0:
-            ur = unfolding_generic_rank(modes, dp, k)
+            ur = unfolding_generic_rank(modes, dp, k) if dp is not None else 1
             if eps is None:
                 E.true('rank_le_unfolding_%d' % k, Ry[k] <= max(ur, 1))
             else:
